@@ -77,6 +77,15 @@ pub fn gen(seed: u64, idx: u64, _tier: Tier) -> Case {
         c.mode = "foreign-base".into();
         let mut plan = crate::imgwr::plan_from_seed(rng.next_u64(), version);
         plan.v3_size_high_garbage = false;
+        if idx % 8 == 7 {
+            // a small version-3 file whose writer set aside enough FAT sectors for TWO (sometimes
+            // three) DIFAT sectors: links between DIFAT sectors other than the first become
+            // corruptible (cycles that do not pass through the first DIFAT sector)
+            c.version = 3;
+            plan = crate::imgwr::plan_from_seed(rng.next_u64(), 3);
+            plan.v3_size_high_garbage = false;
+            plan.total_fat_sectors = 237 + rng.below(140) as u32;
+        }
         c.init = Init::Foreign { content_seed: rng.next_u64(), max_entries: 12, max_stream: 9000, plan };
     } else {
         c.ops = images::gen_build_ops(&mut rng, version);
